@@ -244,6 +244,234 @@ def core_program(rng, typed=False):
     return "\n".join(lines) + "\n"
 
 
+# ---- first-order functions over the core fragment (lean/P2sh/Core/Fn; theorems compile_sound_functions, call_pushes_one) ----
+INT_LITS = [0, 1, 2, 3, 7, 63, 64, 255, 9223372036854775807]
+
+
+def fn_int(rng, env, depth):
+    """a well-typed integer expression over the readable names `env['vars']` and calls of the integer functions
+    `env['calls']` = [(name, arity)] (each terminates and returns an integer)"""
+    vs = env["vars"]
+    if depth <= 0 or rng.random() < 0.3:
+        r = rng.random()
+        if vs and r < 0.5:
+            return rng.choice(vs)
+        if env["calls"] and r < 0.65:
+            f, n = rng.choice(env["calls"])
+            return f"{f}({', '.join(fn_int(rng, env, 0) for _ in range(n))})"
+        return str(rng.choice(INT_LITS))
+    a = lambda: fn_int(rng, env, depth - 1)
+    r = rng.random()
+    if r < 0.4:
+        return f"({a()} {rng.choice(['+', '-', '*', '&', '|', '^'])} {a()})"
+    if r < 0.48:
+        return f"({rng.choice(['-', '~'])}{a()})"
+    if r < 0.7:
+        cond = rng.choice([f"{a()} {rng.choice(['<', '<=', '>', '>=', '==', '!='])} {a()}", f"!({a()} < {a()})",
+                           f"({a()} < {a()}) && ({a()} != {a()})", f"({a()} > {a()}) || ({a()} == {a()})"])
+        return f"if {cond} {{ {a()} }} else {{ {a()} }}"
+    if r < 0.78 and env["calls"]:
+        f, n = rng.choice(env["calls"])
+        return f"{f}({', '.join(a() for _ in range(n))})"
+    if r < 0.86:
+        m = core_match(rng, a, "int", True, False)
+        return m if rng.random() < 0.5 else m.replace("match (", "match (7 & ", 1)
+    if r < 0.93 and env["lvals"]:
+        return f"({rng.choice(env['lvals'])} = {a()})"
+    return a()
+
+
+def fn_any(rng, env, depth):
+    """an arbitrary expression of the fragment (runtime errors possible): `core_expr` with calls as atoms"""
+    if env["calls"] and rng.random() < 0.3:
+        f, n = rng.choice(env["calls"])
+        k = n if rng.random() < 0.9 else rng.choice([max(0, n - 1), n + 1])     # sometimes the wrong number of arguments
+        return f"{f}({', '.join(core_expr(rng, env['vars'], max(0, depth - 1)) for _ in range(k))})"
+    return core_expr(rng, env["vars"], depth)
+
+
+def fn_body(rng, env, ex, lines, ind, depth, loops, counter, in_fn=True):
+    """statements of a function body (or, with in_fn=False, of the top level, where calls are the point): local `let`s
+    (fresh or shadowing names; a name never occurs in its own initialiser), assignments, expression statements, blocks,
+    statement-level `if`, bounded loops with `break` / `continue` / `return` inside"""
+    env = dict(env, vars=list(env["vars"]), lvals=list(env["lvals"]))
+    for _ in range(rng.randint(1, 3 if depth else 4)):
+        r = rng.random()
+        if r < 0.3:
+            n = rng.choice(["t", "u", "v", "a", "b"]) if rng.random() < 0.7 else f"t{counter[0]}"
+            counter[0] += 1
+            init_env = dict(env, vars=[x for x in env["vars"] if x != n], lvals=[x for x in env["lvals"] if x != n])
+            lines.append(f"{ind}let {n} = {ex(rng, init_env, 2)};")
+            if n not in env["vars"]:
+                env["vars"].append(n)
+            if n not in env["lvals"]:
+                env["lvals"].append(n)
+        elif r < 0.45 and env["lvals"]:
+            lines.append(f"{ind}{rng.choice(env['lvals'])} = {ex(rng, env, 2)};")
+        elif r < 0.58:
+            lines.append(f"{ind}{ex(rng, env, 2)};")
+        elif r < 0.66 and depth < 3:
+            lines.append(ind + "{")
+            fn_body(rng, env, ex, lines, ind + "  ", depth + 1, loops, counter, in_fn)
+            lines.append(ind + "}")
+        elif r < 0.8 and depth < 3:
+            lines.append(f"{ind}if {ex(rng, env, 1)} > {ex(rng, env, 1)} {{")
+            fn_body(rng, env, ex, lines, ind + "  ", depth + 1, loops, counter, in_fn)
+            if in_fn and rng.random() < 0.3:
+                lines.append(f"{ind}  return {ex(rng, env, 1)};" if rng.random() < 0.8 else f"{ind}  return;")
+            if rng.random() < 0.5:
+                lines.append(ind + "} else {")
+                fn_body(rng, env, ex, lines, ind + "  ", depth + 1, loops, counter, in_fn)
+            lines.append(ind + "};")
+        elif depth < 3:
+            counter[0] += 1
+            i = f"i{counter[0]}"
+            k = rng.randint(0, 4)
+            lab = f"L{counter[0]}" if rng.random() < 0.4 else None
+            head = f"{lab}: " if lab else ""
+            lines.append(f"{ind}let {i} = 0;")
+            if rng.random() < 0.6:
+                lines.append(f"{ind}{head}while {i} < {k} {{")
+                lines.append(f"{ind}  {i} = {i} + 1;")
+            else:
+                lines.append(f"{ind}{head}loop {{")
+                lines.append(f"{ind}  {i} = {i} + 1;")
+                lines.append(f"{ind}  if {i} > {k} {{ break; }};")
+            # the loop counter is readable where assignments are kept apart from reads (`fn_int`); `core_expr` could assign to it
+            lenv = dict(env, vars=env["vars"] + [i]) if ex is fn_int else env
+            lp = tuple(loops) + (lab,)
+            q = rng.random()
+            if q < 0.35 and in_fn:
+                lines.append(f"{ind}  if {ex(rng, lenv, 1)} > {ex(rng, lenv, 1)} {{ return {ex(rng, lenv, 1)}; }};")
+            elif q < 0.55:
+                lines.append(f"{ind}  if {ex(rng, lenv, 1)} > {ex(rng, lenv, 1)} {{ {core_jump(rng, lp)} }};")
+            fn_body(rng, lenv, ex, lines, ind + "  ", depth + 1, lp, counter, in_fn)
+            lines.append(ind + "}")
+        else:
+            lines.append(f"{ind}{ex(rng, env, 2)};")
+    return env
+
+
+def core_fn_program(rng, typed=True):
+    """a program of lean/P2sh/Core/Fn: global data, 1–3 functions (straight-line with locals, bounded recursion through the
+    function's own name, mutual recursion through a forward-declared global, loops with early `return`), calls from the
+    top level (in expressions, in loops), sometimes a call with the wrong number of arguments"""
+    ex = fn_int if typed else fn_any
+    lines = []
+    counter = [0]
+    gvars = []
+    for j in range(rng.randint(0, 2)):
+        lines.append(f"let g{j} = {rng.choice(INT_LITS[:6])};")
+        gvars.append(f"g{j}")
+    calls = []        # integer functions callable so far
+    rec = set()       # the recursive ones
+    for j in range(rng.randint(1, 3)):
+        f = f"f{j}"
+        kind = rng.random()
+        if kind < 0.22:
+            # bounded recursion through the function's own name (CurrClosure)
+            form = rng.random()
+            if form < 0.4:
+                lines.append(f"fn {f}(n) {{ if n < 2 {{ 1 }} else {{ n * {f}(n - 1) }} }}")
+            elif form < 0.7:
+                lines.append(f"let {f} = fn(n, acc) {{ if n <= 0 {{ return acc; }} {f}(n - 1, acc + n) }};")
+                calls.append((f, 2)); rec.add(f); continue
+            else:
+                lines.append(f"fn {f}(n) {{")
+                lines.append(f"  if n < 2 {{ return n; }}")
+                lines.append(f"  let a = {f}(n - 1);")
+                lines.append(f"  let b = {f}(n - 2);")
+                lines.append(f"  a + b")
+                lines.append("}")
+            calls.append((f, 1)); rec.add(f)
+            # recursion depth / cost bounded by masking the argument at the call sites: see `arg` below
+        elif kind < 0.36:
+            # mutual recursion through a global declared before (the second function is assigned)
+            o = f"h{j}"
+            lines.append(f"let {o} = null;")
+            lines.append(f"fn {f}(n) {{ if n == 0 {{ 1 }} else {{ {o}(n - 1) }} }}")
+            lines.append(f"{o} = fn(n) {{ if n == 0 {{ 0 }} else {{ {f}(n - 1) }} }};")
+            calls.append((f, 1)); calls.append((o, 1)); rec.add(f); rec.add(o)
+        else:
+            np_ = rng.randint(0, 3)
+            ps = [f"p{q}" for q in range(np_)]
+            lines.append(f"fn {f}({', '.join(ps)}) {{")
+            # the body may call the functions defined so far, but not the recursive ones with unbounded arguments
+            env = {"vars": gvars + ps, "lvals": gvars + ps, "calls": []}
+            env = fn_body(rng, env, ex, lines, "  ", 1, (), counter)
+            end = rng.random()
+            if end < 0.45:
+                lines.append(f"  {ex(rng, env, 2)}")
+            elif end < 0.7:
+                lines.append(f"  return {ex(rng, env, 2)};")
+            elif end < 0.8 and typed:
+                lines.append(f"  if {ex(rng, env, 1)} > {ex(rng, env, 1)} {{ {ex(rng, env, 1)} }} else {{ {ex(rng, env, 1)} }}")
+            elif not typed:
+                pass          # no final expression: the function returns null (or the value of a final `if`)
+            else:
+                lines.append(f"  {ex(rng, env, 1)}")
+            lines.append("}")
+            if np_ <= 3:
+                calls.append((f, np_)) if typed or True else None
+    # the top level: calls (arguments of recursive functions are masked to stay small)
+    env = {"vars": gvars, "lvals": gvars, "calls": []}
+    def call(rng):
+        f, n = rng.choice(calls)
+        k = n
+        if rng.random() < 0.06:
+            k = rng.choice([max(0, n - 1), n + 1])
+        args = []
+        for _ in range(k):
+            if f in rec:
+                # the arguments of the recursive functions stay small (depth and cost of the recursion)
+                args.append(rng.choice([str(rng.randint(0, 6)), f"(7 & {fn_int(rng, env, 1)})"]))
+            else:
+                args.append(f"(7 & {ex(rng, env, 1)})" if typed else rng.choice([str(rng.randint(0, 6)), f"(7 & {fn_int(rng, env, 1)})", core_expr(rng, gvars, 1)]))
+        return f"{f}({', '.join(args)})"
+    for j in range(rng.randint(1, 4)):
+        r = rng.random()
+        if r < 0.45:
+            lines.append(f"let r{j} = {call(rng)};")
+            env["vars"].append(f"r{j}"); gvars.append(f"r{j}") if False else None
+        elif r < 0.6:
+            lines.append(f"{call(rng)};")
+        elif r < 0.75:
+            lines.append(f"let s{j} = {call(rng)} + {call(rng)};")
+        elif r < 0.9:
+            counter[0] += 1
+            i = f"i{counter[0]}"
+            lines.append(f"let {i} = 0;")
+            lines.append(f"while {i} < {rng.randint(1, 4)} {{")
+            lines.append(f"  {i} = {i} + 1;")
+            lines.append(f"  let w = {call(rng)};")
+            if rng.random() < 0.4:
+                lines.append(f"  if w > {rng.choice([0, 1, 5, 100])} {{ {rng.choice(['break', 'continue'])}; }};")
+            if env["lvals"]:
+                lines.append(f"  {rng.choice(env['lvals'])} = w;")
+            lines.append("}")
+        else:
+            lines.append(f"if {call(rng)} > {rng.choice([0, 1, 5])} {{ {call(rng)}; }} else {{ let y = {call(rng)}; }};")
+    return "\n".join(lines) + "\n"
+
+
+CORE_FN_FIXED = [
+    "fn fact(n) { if n < 2 { 1 } else { n * fact(n - 1) } }\nlet r = fact(10);\n",
+    "let odd = null;\nfn even(n) { if n == 0 { true } else { odd(n - 1) } }\nodd = fn(n) { if n == 0 { false } else { even(n - 1) } };\nlet r = even(9);\nlet q = odd(9);\n",
+    "fn root(n) {\n  let i = 0;\n  while true {\n    loop {\n      if i * i > n { return i; }\n      i = i + 1;\n    }\n  }\n}\nlet r = 100 + root(10);\n",
+    "fn f(a, b) { a - b }\nlet r = f(1);\n",
+    "fn f(a, b) { a - b }\nlet r = f(1, 2, 3);\n",
+    "fn f() { }\nlet r = f();\nlet q = r(1);\n",
+    "fn f(a) { let a = 2; { let a = 3; a = a + 1; } a }\nlet r = f(1);\n",
+    "fn f(f) { f + 1 }\nlet r = f(1);\n",
+    "let g = 1;\nfn f(g) { g = g + 1; g }\nlet r = f(5) + g;\n",
+    "fn f(n) { let s = 0; let i = 0; out: while i < n { i = i + 1; let j = 0; while j < n { j = j + 1; if j == 2 { continue out; } if i == 3 { return s; } s = s + 1; } } s }\nlet r = f(5);\n",
+    "fn f(n) { if n > 3 { return; } n }\nlet a = f(1);\nlet b = f(9);\n",
+    "fn f(x) { while x > 0 { x = x - 1; } }\nlet r = f(3);\n",
+    "fn fib(n) { if n < 2 { return n; } let a = fib(n - 1); let b = fib(n - 2); a + b }\nlet i = 0;\nlet s = 0;\nwhile i < 8 { s = s + fib(i); i = i + 1; }\n",
+    "let f = fn(n, acc) { if n <= 0 { return acc; } f(n - 1, acc + n) };\nlet r = f(50, 0);\n",
+]
+
+
 def sources(ctx):
     rng = ctx.rng
     out = []
@@ -272,6 +500,11 @@ def cases(ctx):
     csrcs = [core_program(ctx.rng, typed=(k % 2 == 0)) for k in range(ctx.scale(3000, 150000))]
     cl = lang_lines(ctx, csrcs, op="core")
     out += [Case(l, ("core",), extra={"src": s}) for l, s in zip(cl, csrcs)]
+    # the layer with first-order functions (theorem compile_sound_functions): main code, every function constant (code,
+    # lines, num_locals, num_params), the machine with frames and the reference evaluation against the real compiler and VM
+    fsrcs = [core_fn_program(ctx.rng, typed=(k % 2 == 0)) for k in range(ctx.scale(1200, 60000))] + CORE_FN_FIXED
+    fl = lang_lines(ctx, fsrcs, op="core")
+    out += [Case(l, ("core-fn",), extra={"src": s}) for l, s in zip(fl, fsrcs)]
     return out
 
 
